@@ -81,60 +81,6 @@ fn gen_cases(rng: &mut Rng, tier: Tier) -> Vec<Value> {
         .collect()
 }
 
-/// derives consistent relations from a solved tour (as the documentation requires)
-fn derive_relations(sp: &SProblem, sol: &Value, rseed: u64) -> Vec<SRelation> {
-    let mut rng = Rng::new(rseed);
-    let mut rels = vec![];
-    let single_place = |id: &str| {
-        sp.jobs.iter().find(|j| j.id == id).is_some_and(|j| j.tasks.iter().all(|t| t.places.len() == 1 && t.places[0].tws.len() <= 1) && j.tasks.len() == 1)
-    };
-    for t in sol["tours"].as_array().unwrap().iter() {
-        if !rng.chance(1, 2) {
-            continue;
-        }
-        let ids: Vec<String> = t["stops"]
-            .as_array()
-            .unwrap()
-            .iter()
-            .flat_map(|s| s["activities"].as_array().unwrap().iter())
-            .map(|a| a["jobId"].as_str().unwrap().to_string())
-            .collect();
-        let kind = *rng.pick(&["any", "sequence", "strict"]);
-        // NOTE jobs of a relation are not checked for constraint violations (documented): a consistent relation
-        // repeats a prefix of a feasible tour, in tour order, from the departure on, up to the first break or job
-        // that relations do not support; reloads are listed for sequence/strict, `any` stops before the first reload
-        let mut prefix: Vec<String> = vec![];
-        for id in ids.iter() {
-            let ok = match id.as_str() {
-                "departure" => true,
-                "reload" => kind != "any",
-                "break" | "arrival" => false,
-                other => single_place(other),
-            };
-            if !ok {
-                break;
-            }
-            prefix.push(id.clone());
-        }
-        let keep = rng.usize(1, prefix.len().max(1));
-        prefix.truncate(keep.max(2).min(prefix.len()));
-        while prefix.last().is_some_and(|id| id == "reload") {
-            prefix.pop();
-        }
-        let jobs: Vec<String> = if kind == "any" { prefix.into_iter().filter(|id| id != "departure").collect() } else { prefix };
-        if jobs.iter().filter(|j| *j != "departure").count() == 0 {
-            continue;
-        }
-        rels.push(SRelation {
-            kind: kind.to_string(),
-            jobs,
-            vehicle_id: t["vehicleId"].as_str().unwrap().to_string(),
-            shift_index: Some(t["shiftIndex"].as_u64().unwrap() as usize),
-        });
-    }
-    rels
-}
-
 fn solve_with_config(problem: Arc<vrp_core::models::Problem>, config: &Value) -> Result<Value, String> {
     let text = serde_json::to_string(config).unwrap();
     let config = read_config(BufReader::new(text.as_bytes())).map_err(|e| format!("config: {e}"))?;
